@@ -29,8 +29,11 @@ def check(ctx):
         cases.append({"kind": "projection", "shape": sh, "wave": wk, "amp": ak})
     for pos, a, b, step, fix in itertools.product(("integer", "fractional", "wrapping"), (0.0, 0.3, 1.0), (0.0, 0.3, 1.0), (1.0, 0.5), (False, True)):
         cases.append({"kind": "update", "pos": pos, "alpha": a, "beta": b, "step": step, "fix_probe": fix})
-    for J, rot, pad in itertools.product((1, 2, 5), (None, 0.3), (None, [4, 6])):
+    for J, rot, pad in itertools.product((1, 2, 5, 6), (None, 0.3), (None, [4, 6])):
         cases.append({"kind": "positions", "J": J, "rot": rot, "pad": pad})
+        if J in (2, 6):  # explicit positions AND a grid scan shape in the parameters (what preprocessing of 4-D data leaves behind)
+            cases.append({"kind": "positions", "J": J, "rot": rot, "pad": pad, "grid": [J // 2, 2], "steps": None})
+            cases.append({"kind": "positions", "J": J, "rot": rot, "pad": pad, "grid": [J // 2, 2], "steps": [0.5, 1.0]})
     for win in ([3, 3], [2, 4], [5, 6]):
         cases.append({"kind": "window", "win": win})
     ctx.workers = 8
@@ -129,9 +132,10 @@ def run_case(c):
         return {"viol": viol, "obs": "ok" if not viol else viol[0]["key"], "tr": 4}
     if c["kind"] == "positions":
         J = c["J"]
-        pts = np.array([[3.0, 1.0], [0.5, 2.5], [2.0, 0.0], [4.5, 4.0], [1.0, 3.5]])[:J]
+        pts = np.array([[3.0, 1.0], [0.5, 2.5], [2.0, 0.0], [4.5, 4.0], [1.0, 3.5], [3.5, 0.5]])[:J]
         sampling = (0.25, 0.5)
-        params = {"grid_scan_shape": None, "scan_step_sizes": None, "rotation_angle": c["rot"], "object_px_padding": c["pad"]}
+        params = {"grid_scan_shape": tuple(c["grid"]) if c.get("grid") else None, "scan_step_sizes": tuple(c["steps"]) if c.get("steps") else None,
+                  "rotation_angle": c["rot"], "object_px_padding": c["pad"]}
         px, _ = R.AbstractPtychographicOperator._calculate_scan_positions_in_pixels(pts.copy(), sampling, (8, 8), dict(params))
         px = np.asarray(px)
         if px.shape != (J, 2):
